@@ -320,6 +320,34 @@ func (s *Slice) visitStoresTo(addr ssa.Value, depth int) {
 			}
 		case *ssa.Slice:
 			// varargs arrays: "slice t[:]" of an alloc'd array
+		case ssa.CallInstruction:
+			// the address is handed to a callee (pointer receiver or argument):
+			// whatever else the call receives may end up behind the pointer
+			if _, isAlloc := addr.(*ssa.Alloc); !isAlloc {
+				continue
+			}
+			cc := st.Common()
+			passed := false
+			for _, a := range cc.Args {
+				if a == addr {
+					passed = true
+				}
+			}
+			if !passed {
+				continue
+			}
+			if n := calleeName(st); n != "" {
+				if v, ok := st.(ssa.Value); ok {
+					s.Calls[n] = append(s.Calls[n], v)
+				} else {
+					s.Calls[n] = append(s.Calls[n], nil)
+				}
+			}
+			for _, a := range cc.Args {
+				if a != addr {
+					s.visit(a, depth)
+				}
+			}
 		}
 	}
 }
